@@ -410,8 +410,11 @@ impl Prop for C06 {
                 if ops.contains(&Op::Pow) {
                     return;
                 }
-                // operands: quantities at + - positions, plain numbers as * / right operands
-                let mut leaves = vec![q[0].clone()];
+                // operands: quantities at + - positions, plain numbers as * / right operands; the first
+                // operand a quantity, or a plain number (which adopts the first target and is converted
+                // to the later ones: `5 to m to km` is 1/200 km)
+                for first in [q[0].clone(), num("5")] {
+                let mut leaves = vec![first];
                 for (i, op) in ops.iter().enumerate() {
                     leaves.push(match op {
                         Op::Add | Op::Sub => q[(i + 1) % 4].clone(),
@@ -442,6 +445,7 @@ impl Prop for C06 {
                     let g = gaps(&toks);
                     emit("to", render(&toks, &g, &uniform(&g, 1)), &tree, None, sink);
                     emit("to", render(&toks, &g, &uniform(&g, 0)), &tree, None, sink);
+                }
                 }
             });
         }
